@@ -376,3 +376,8 @@ def run(ctx, rep):
     clause_snapshot_args(prog, rep)
     clause_hydrated_incumbent(prog, rep)
     clause_future_epoch(prog, rep)
+    # whichever way a member applies its own commit, the record it ends with is the one the metadata sync wrote: a record loaded before
+    # the merge and saved after the sync puts the committer's stored epoch / group data back behind everybody else's (shared with C08)
+    rep.clause("C01.6 a group record saved after the metadata sync was re-read after it (the committer's stored state is the synced one on every apply route)")
+    import c08
+    c08.clause_no_stale_overwrite(prog, rep, c08.sync_fns(prog))
